@@ -61,11 +61,12 @@ def run_property(pid, tier, seed, result):
         for k in ("partitions_distinct", "orders_distinct"):
             if k in w:
                 result["extra"]["%s[%s]" % (k, cfg)] = w[k]
+        if "n_entry_points" in w:
+            result["extra"]["ops_covered[%s]" % cfg] = w["n_entry_points"]
+            result["extra"]["ops_dispatched_through_pool[%s]" % cfg] = w.get("n_dispatched_entry_points", 0)
         if "entry_points" in w:
-            result["extra"]["ops_covered[%s]" % cfg] = len(w["entry_points"])
             w["entry_points"] = dict(list(sorted(w["entry_points"].items()))[:60])
         if "dispatched_entry_points" in w:
-            result["extra"]["ops_dispatched_through_pool[%s]" % cfg] = len(w["dispatched_entry_points"])
             w["dispatched_entry_points"] = w["dispatched_entry_points"][:80]
         if "pool" in w and isinstance(w["pool"], dict):
             result["extra"]["concurrent_overlaps_observed[%s]" % cfg] = w["pool"].get("concurrent_overlaps", 0)
